@@ -87,7 +87,7 @@ func VerifHarness_C13_channel_confirmation() {
 	payload := vBytesN(4)
 	_, err := c.WriteTo(payload, peer)
 	vAssert(err == nil, "C13.write_with_permission_succeeds")
-	vAssert(vSpawnCount() == 1, "C13.first_write_starts_one_channel_bind")
+	vAssert(vOr(vNative(), vSpawnCount() == 1), "C13.first_write_starts_one_channel_bind") // (goroutines are counted by the engine only)
 	vAssert(len(fc.events) == 1 && fc.events[0].isSendIndication(), "C13.first_write_is_a_send_indication")
 	b, ok := c.bindingMgr.findByAddr(peer)
 	vAssume(ok)
